@@ -158,3 +158,49 @@ func VerifDecodeEnvelope(handler string, b [5]byte) (VerifEnvelope, error) {
 func VerifEncodeEnvelope(handler string, env VerifEnvelope) [5]byte {
 	return [5]byte(verifEnveloper(handler).encodeEnvelope(envelope{trailer: env.Trailer, compressed: env.Compressed, length: env.Length}))
 }
+
+// VerifRouter builds a routeTrie from (method, template) pairs without needing
+// message descriptors: it runs parsePathTemplate and routeTrie.insert exactly as
+// addRoute does, skipping only makeTarget's field resolution.
+type VerifRouter struct {
+	trie    routeTrie
+	targets map[*routeTarget]int
+}
+
+// Add parses the template and inserts the route. It returns the index of the
+// new binding or an error (parse error or duplicate binding).
+func (r *VerifRouter) Add(method, template string) (int, error) {
+	segments, variables, err := parsePathTemplate(template)
+	if err != nil {
+		return -1, err
+	}
+	vars := make([]routeTargetVar, len(variables))
+	for i, v := range variables {
+		vars[i] = routeTargetVar{pathVariable: v}
+	}
+	target := &routeTarget{method: method, path: segments.path, verb: segments.verb, vars: vars}
+	if err := r.trie.insert(method, target, segments); err != nil {
+		return -1, errors.New("route already exists")
+	}
+	if r.targets == nil {
+		r.targets = map[*routeTarget]int{}
+	}
+	idx := len(r.targets)
+	r.targets[target] = idx
+	return idx, nil
+}
+
+// Match wraps routeTrie.match. found is the index of the matched binding or -1.
+func (r *VerifRouter) Match(uriPath, method string) (found int, vars []string, allow []string) {
+	target, varMatches, methods := r.trie.match(uriPath, method)
+	if target == nil {
+		for m := range methods {
+			allow = append(allow, m)
+		}
+		return -1, nil, allow
+	}
+	for _, vm := range varMatches {
+		vars = append(vars, vm.value)
+	}
+	return r.targets[target], vars, nil
+}
